@@ -176,11 +176,11 @@ Definition enc_record (strings contigs : smap) (s : site) (infos fmts : list fie
   bind (u32 (Z.of_nat (length ib))) (fun l2 =>
   Ok (l1 ++ l2 ++ sb ++ ib))))).
 
-(* SWITCH for the repair of format-keys-without-sample-rows (fix 11, NOT applied at the modelled
-   tree): write_site counts the FORMAT keys (n_fmt) even when the record has no sample rows and
+(* SWITCH for the repair of format-keys-without-sample-rows (fix 11 = e6b6f67, APPLIED at the
+   modelled tree; false = the tree before it): write_site counts the FORMAT keys (n_fmt) even when the record has no sample rows and
    therefore no FORMAT block.  After the repair n_fmt is 0 in that case, i.e. the record is written
    as if it had no keys.  [enc_record_w] is write_record as the cases exercise it. *)
-Definition fix11_nfmt_zero_without_rows : bool := false.
+Definition fix11_nfmt_zero_without_rows : bool := true.
 
 Definition enc_record_w (strings contigs : smap) (s : site) (infos fmts : list field) (has_rows : bool)
   : res (list N) :=
